@@ -1005,17 +1005,16 @@ var fractionRegex = regexp.MustCompile(`^([0-9]+)\s?[/]\s?([0-9]+)$`)
 
 func ParsePortionSpecific(input string) (*big.Rat, InterpreterError) {
 	var res *big.Rat
-	var ok bool
 
 	percentMatch := percentRegex.FindStringSubmatch(input)
 	if len(percentMatch) != 0 {
-		integral := percentMatch[1]
-		fractional := percentMatch[2]
-		res, ok = new(big.Rat).SetString(integral + "." + fractional)
-		if !ok {
+		// same reading as for percentage literals
+		// (whereas big.Rat.SetString gives up on numbers with more than a million decimals)
+		num, den, err := parser.ParsePercentageRatio(input)
+		if err != nil {
 			return nil, BadPortionParsingErr{Reason: "invalid percent format", Source: input}
 		}
-		res.Mul(res, big.NewRat(1, 100))
+		res = new(big.Rat).SetFrac(num, den)
 	} else {
 		fractionMatch := fractionRegex.FindStringSubmatch(input)
 		if len(fractionMatch) != 0 {
